@@ -79,7 +79,7 @@ func (o *OvsSet) UnmarshalJSON(b []byte) (err error) {
 	}
 
 	var inter interface{}
-	if err = json.Unmarshal(b, &inter); err != nil {
+	if err = unmarshalExact(b, &inter); err != nil {
 		return err
 	}
 	switch inter.(type) {
